@@ -31,6 +31,8 @@ mod storrun;
 mod concrun;
 #[cfg(agdb_verif)]
 mod storedrun;
+#[cfg(agdb_verif)]
+mod opsrun;
 
 use std::collections::BTreeMap;
 use std::io::Write;
@@ -347,6 +349,27 @@ fn main() {
             write_lines(&format!("{}/oracle.txt", out), &o.oracle);
             o.stats.insert("histories".into(), o.histories);
             o.stats.insert("records".into(), o.records);
+            let ev = o.cases.len() as u64;
+            write_stats(&format!("{}/stats.json", out), &o.stats, ev, o.nontrivial, &o.samples);
+        }
+        #[cfg(agdb_verif)]
+        "ops" => {
+            // C05, database level: the core mutations as storage programs (StoredDbOps.v) against the record bytes of real files;
+            // --n histories (1..3 cases each), --steps max queries per history
+            let steps: usize = arg(&args, "--steps", "25").parse().unwrap();
+            let mut o = opsrun::Out::new();
+            let mut r = rng::Rng::new(seed);
+            for i in 0..n {
+                let mut hr = r.fork();
+                opsrun::run_history(&mut hr, &out, i, steps, &mut o);
+            }
+            write_lines(&format!("{}/cases.txt", out), &o.cases);
+            write_lines(&format!("{}/impl.txt", out), &o.imp);
+            write_lines(&format!("{}/hist.txt", out), &o.hist);
+            write_lines(&format!("{}/oracle.txt", out), &o.oracle);
+            o.stats.insert("histories".into(), o.histories);
+            o.stats.insert("records".into(), o.records);
+            o.stats.insert("file_bytes".into(), o.file_bytes);
             let ev = o.cases.len() as u64;
             write_stats(&format!("{}/stats.json", out), &o.stats, ev, o.nontrivial, &o.samples);
         }
